@@ -2117,6 +2117,14 @@ namespace awkward {
         flatlength *= (int64_t)x;
       }
 
+      if (util::is_complex(nextdtype)  &&
+          !util::is_complex(contiguous_array.dtype())) {
+        // In the "to complex" cases below, positions and lengths count
+        // (real, imag) slots, not items: a non-complex source of n items
+        // fills 2*n slots (its cases pass 'flatlength >> 1' items).
+        flatlength = flatlength * 2;
+      }
+
       struct Error err;
       switch (nextdtype) {
       // to boolean
